@@ -33,6 +33,7 @@ type entryIn struct {
 	Args     []string          `json:"args"`     // everything after `_carapace`; `\xNN` stands for the raw byte
 	Env      map[string]string `json:"env"`      // same escaping
 	Desc     string            `json:"desc"`     // the description of one of the registered values (same escaping)
+	WB       string            `json:"wb,omitempty"` // word-break scenario: the word typed so far (the candidates are those of menu[14])
 }
 
 // unescapeBytes: `\xNN` -> byte
@@ -110,7 +111,9 @@ func runEntry(raw json.RawMessage) interface{} {
 	fix := entryFixture()
 	exe, err := os.Executable()
 	must(err)
-	args := []string{"-c", `"$0" "$@"; echo "EXIT:$?" >&2`, exe, "entry-child"}
+	// bash (every ancestor is one under another name) resets COMP_WORDBREAKS at start-up and does not export it; the snippet's
+	// completion function exports it again - so does this script
+	args := []string{"-c", `[ -n "${VERIF_COMP_WORDBREAKS+x}" ] && export COMP_WORDBREAKS="$VERIF_COMP_WORDBREAKS"; unset VERIF_COMP_WORDBREAKS; "$0" "$@"; echo "EXIT:$?" >&2`, exe, "entry-child"}
 	for _, a := range in.Args {
 		args = append(args, unescapeBytes(a))
 	}
@@ -123,6 +126,9 @@ func runEntry(raw json.RawMessage) interface{} {
 		v = strings.ReplaceAll(unescapeBytes(v), "$FIX", fix)
 		if !strings.ContainsRune(v, 0) && !strings.ContainsAny(k, "=\x00") && k != "" {
 			env = append(env, k+"="+v)
+			if k == "COMP_WORDBREAKS" {
+				env = append(env, "VERIF_COMP_WORDBREAKS="+v)
+			}
 		}
 	}
 	cmd.Env = env
@@ -215,6 +221,10 @@ func registerEntryActions(spec treeSpec, cmds []*cobra.Command, variant int, des
 			return carapace.ActionExecCommand("sh", "-c", "printf '\\n\\n' >&2; echo out; exit 1")(func(output []byte) carapace.Action { return carapace.ActionValues("unreachable") })
 		},
 		func(i int) carapace.Action { return carapace.ActionImport([]byte("{not json")) },
+		// values with characters bash may or may not break words at (menu[14], used by the word-break scenario)
+		func(i int) carapace.Action {
+			return carapace.ActionValues("user@host", "user@home", "ns:pod", "ns:port", "key=v1", "key=v2", "plain")
+		},
 	}
 	for i, cs := range spec.Cmds {
 		g := carapace.Gen(cmds[i])
@@ -313,7 +323,27 @@ func genNastyWord(r *rng) string {
 	}
 }
 
+// genEntryWordbreak: bash completes only the part of the word behind the last COMP_WORDBREAKS character - the list
+// the user's bash really uses (from the environment), which may contain `@` or lack `:`
+func genEntryWordbreak(r *rng) entryIn {
+	t := treeSpec{Cmds: []cmdSpec{{Name: "root", Parent: -1, Interspersed: true, NPos: 1}}}
+	in := entryIn{Tree: t, Variant: 14, Ancestor: "bash", Env: map[string]string{}, Desc: "plain text"}
+	in.WB = pick(r, []string{"user@ho", "user@", "ns:po", "ns:", "key=v", "key=", "pl", "user", "ns"})
+	line := "root " + in.WB
+	in.Args = []string{"bash", "root", in.WB}
+	in.Env["COMP_LINE"] = line
+	in.Env["COMP_POINT"] = itoa(len(line))
+	in.Env["COMP_TYPE"] = pick(r, []string{"9", "9", "33", "63"})
+	if wb := pick(r, []string{"\"'@><=;|&(:", "\"'><=;|&(", " \t\n\"'><=;|&(:", "@", "=", "unset"}); wb != "unset" {
+		in.Env["COMP_WORDBREAKS"] = wb
+	}
+	return in
+}
+
 func genEntry(r *rng, tier string) interface{} {
+	if r.chance(4) {
+		return genEntryWordbreak(r)
+	}
 	t := genTree(r)
 	in := entryIn{Tree: t, Variant: r.intn(64), Env: map[string]string{}}
 	in.Ancestor = pick(r, entryAncestors)
@@ -616,6 +646,7 @@ func genAbs(r *rng, tier string) interface{} {
 
 func init() {
 	ops["entry"] = &opDef{gen: genEntry, run: runEntry}
+	ops["entrywb"] = &opDef{gen: func(r *rng, tier string) interface{} { return genEntryWordbreak(r) }, run: runEntry}
 	ops["compline"] = &opDef{gen: genCompline, run: runCompline}
 	ops["trimdesc"] = &opDef{gen: genTrimdesc, run: runTrimdesc}
 	ops["abs"] = &opDef{gen: genAbs, run: runAbs}
